@@ -3,6 +3,7 @@
 import json
 props=[json.loads(l)['id'] for l in open('/verif/properties.jsonl')]
 CLAIMS = {
+ "C13": ("proof", "the frame obligation of every function under contract (117 functions in exec, store, grammar): nothing allocated before the call changes unless named in the modifies clause; Exec's own clause names nothing of the caller's, so trees, compiled expressions, binding maps and caller-owned node-sets are not written; no package-level state is written outside initialisers (scan); determinism follows from purity of every callee contract", "BuildExpr equivalence across calls not covered (generated parser); user functions assumed pure (A-FN); Unmarshal not yet covered"),
  "C10": ("proof", "contracts on every store operation: each created node is fresh with the given position and parent; addNamespace/inheritNamespaces keep every namespace node owned by its element (fresh copies, overridden by prefix), positions handed out in (element pos, counter]; accessors return the stored fields; the event loop is not recursive (structural obligation). The event loop's whole-tree behaviour (nesting, global uniqueness of positions) is covered by a BOUNDED stand-in only (all conforming streams up to 7 events, 8 in thorough)", "bounded stand-in for createInMemory (labelled in evidence, not counted as proved); Parser contract assumed for the streams enumerated"),
  "C02": ("proof", "execPredicate/execStep/filter-expression handlers equal the Sem definition: one evaluation per context node, position = index in the candidate list in axis order, last() = its length, [n] as IEEE position()=n, (E)[p] numbered in document order, path continued after a filter (dispatch obligations for PathExprFilter*)", "Sem layer (module sem, written from XPath 1.0); A-BSR; the lemma 'strictly monotone sequence is determined by its member set' is assumed (module seqcanon)"),
  "C18": ("proof", "Exec starts from the given cursor with position 1, size 1 (obligations at the execRecover call), and P/R = union over P of R by the Sem equations for RelativeLocationPathWithStep and Step proved for the handlers", "execRecover trusted (defer/recover); user setting callbacks assumed to touch only the settings they are given; function-in-path P/f() not covered (FunctionCall handler not yet under contract)"),
